@@ -57,6 +57,20 @@ pub fn run(out: &mut Out, tier: &str, rng: &mut Rng) {
         let cut: Vec<u8> = { let parts: Vec<&[u8]> = a.split(|c| *c == b'-' || *c == b'_').collect(); let p = parts.iter().position(|t| t.len() == 1).unwrap_or(parts.len()); gen::join(&parts[..p], 0) };
         out.case(likely::DIR_OP, &[&cut], || likely::direction(&cut));
     }
+    // matches() on the identifiers whose likely script depends on the region: a likelysubtags build must answer the same
+    {
+        let mut dom: Vec<String> = vec![];
+        for l in ["pa", "az", "uz", "ar", "ku"] { for s in ["", "Latn", "Cyrl", "Arab"] { for r in ["", "PK", "AF", "IR", "IN"] {
+            let mut t = l.to_string();
+            for p in [s, r] { if !p.is_empty() { t.push('-'); t.push_str(p); } }
+            dom.push(t);
+        } } }
+        for a in dom.iter() { for b in dom.iter() { for f in 0..4u8 {
+            let (ra, rb) = (f & 1 == 1, f & 2 == 2);
+            let fa: &[u8] = if ra { b"1" } else { b"0" }; let fb: &[u8] = if rb { b"1" } else { b"0" };
+            out.case("li_matches", &[a.as_bytes(), b.as_bytes(), fa, fb], || langid::li_matches(a.as_bytes(), b.as_bytes(), ra, rb));
+        } } }
+    }
     // histories without maximize / minimize (those are extra APIs)
     for i in 0..(if thorough { 30_000 } else { 3_000 }) {
         let start: Vec<u8> = if i % 3 == 0 { vec![] } else { rng.pick(&pool).clone() };
